@@ -2,6 +2,7 @@ package main
 
 import (
 	"bytes"
+	"encoding/binary"
 	"fmt"
 	"os"
 	"runtime"
@@ -235,6 +236,12 @@ func checkC04(c *ctx) {
 			return
 		}
 	}
+	// doc-value regions starting at offsets whose uvarint encoding begins with particular byte pairs
+	// (0xff 0xff: offset = 0x3fff mod 0x4000; 0x80 0x80; 0xff 0x7f), reached by padding a stored field
+	if bad := dvOffsetResidues(c); bad != "" {
+		c.Violation("C04 "+bad, false)
+		return
+	}
 	// one path used for one segment after the other (a file name recycled by the caller): what is
 	// opened must be what was persisted last - also when the two files have the same length and the
 	// same footer offsets (a field renamed to a name of equal length; a text moved to another field)
@@ -440,6 +447,97 @@ func samePathGenerations(c *ctx) string {
 			}
 		}
 		os.Remove(path)
+	}
+	return ""
+}
+
+// dvStartOf reads, from the bytes of a segment file, the start offset of the doc-value region of a
+// field (footer -> fields index -> field record -> inverted section -> first uvarint).
+func dvStartOf(file []byte, field string) (uint64, bool) {
+	if len(file) < 52 {
+		return 0, false
+	}
+	foot := file[len(file)-52:]
+	secIdx := binary.BigEndian.Uint64(foot[24:32])
+	if secIdx >= uint64(len(file)) {
+		return 0, false
+	}
+	nf, k := binary.Uvarint(file[secIdx:])
+	pos := secIdx + uint64(k)
+	for i := uint64(0); i < nf; i++ {
+		off := binary.BigEndian.Uint64(file[pos+8*i:])
+		nl, k := binary.Uvarint(file[off:])
+		p := off + uint64(k)
+		name := string(file[p : p+nl])
+		p += nl
+		ns, k := binary.Uvarint(file[p:])
+		p += uint64(k)
+		for j := uint64(0); j < ns; j++ {
+			typ := binary.BigEndian.Uint16(file[p:])
+			addr := binary.BigEndian.Uint64(file[p+2:])
+			p += 10
+			if name == field && typ == 0 && addr != 0 {
+				dvS, _ := binary.Uvarint(file[addr:])
+				return dvS, true
+			}
+		}
+	}
+	return 0, false
+}
+
+func dvOffsetResidues(c *ctx) string {
+	pad := c.R.Bytes(70000)
+	mk := func(l int) zh.Batch {
+		var b zh.Batch
+		for d := 0; d < 3; d++ {
+			doc := zh.Doc{Fields: []zh.Field{zh.IDField(fmt.Sprintf("r%02d", d)),
+				{Name: "body", Typ: 't', DV: true, Len: 2, Toks: []zh.Tok{{Term: fmt.Sprintf("w%d", d), Freq: 1}, {Term: "all", Freq: 1}}},
+				{Name: "tag", Typ: 't', DV: true, Len: 1, Toks: []zh.Tok{{Term: "t", Freq: 1}}}}}
+			if d == 0 {
+				doc.Fields = append(doc.Fields, zh.Field{Name: "pad", Typ: 't', Stored: true, Val: pad[:l]})
+			}
+			b = append(b, doc)
+		}
+		return b
+	}
+	for _, target := range []uint64{0x3fff, 0x0000, 0x3f7f, 0x0080} {
+		l := 40000
+		var b zh.Batch
+		var sb *zap.SegmentBase
+		hit := false
+		for try := 0; try < 12; try++ {
+			b = mk(l)
+			var err error
+			sb, _, err = zh.Build(b, 1026)
+			must(err)
+			file, err := zh.FileBytes(sb)
+			must(err)
+			s0, ok := dvStartOf(file, "body")
+			if !ok {
+				return "the doc-value offset of field body cannot be located in the file (harness reader out of date)"
+			}
+			if s0%0x4000 == target {
+				hit = true
+				break
+			}
+			sb.Close()
+			l += int((target + 0x4000 - s0%0x4000) % 0x4000)
+			if l >= len(pad) {
+				l -= 0x4000
+			}
+		}
+		if !hit {
+			c.Count("dv_offset_residue_not_reached")
+			continue
+		}
+		spec, err := zh.SpecOf(c.M, b)
+		mustH(err)
+		c.Case(fmt.Sprintf("dv-offset-residue-%#x", target), true)
+		c.Count("dv_offset_residues")
+		if bad := persistEquiv(c, sb, spec, uint64(len(b)), 1026, false); bad != "" {
+			return fmt.Sprintf("a segment in which the doc values of field body start at an offset = %#x modulo 0x4000 (its uvarint begins with particular bytes); stored pad of %d bytes\n%s", target, l, clip(bad))
+		}
+		sb.Close()
 	}
 	return ""
 }
